@@ -14,7 +14,7 @@ from leanfmt import lean_list
 
 ID = "C01"
 LEAN_MODULES = ["EzdxfVerif.Props.C01"]
-DRIVER_DEPS = ["EzdxfVerif.Model.Schema", "EzdxfVerif.Gen.Schemas", "Drivers.Proto"]
+DRIVER_DEPS = ["EzdxfVerif.Model.Schema", "EzdxfVerif.Model.Payload", "EzdxfVerif.Gen.Schemas", "EzdxfVerif.Gen.PayloadTables", "Drivers.Proto"]
 RULE = (
     "correspondence (Lean driver vs real code, line by line): X1 one synthetic attribute definition (group code class x xtype "
     "x default None/equal/different/int-under-float x optional x dxfversion x file version x force_optional x stored value incl. "
@@ -30,15 +30,37 @@ RULE = (
     "get_default compared per attribute, permitted loss = attribute dxfversion newer than the file / type not exportable; O2 "
     "whole documents (type-rich generator, operation histories): types, order, handles, owners, attributes, payload accessors, "
     "XDATA, app data, reactors, extension dictionaries + byte level second cycle via harness/dxfparse.py; O3 the same in a "
-    "process with EZDXF_DISABLE_C_EXT=1; O4 long string tag helpers."
+    "process with EZDXF_DISABLE_C_EXT=1; O4 long string tag helpers; O5 payload codecs on the real code only: random SPLINE / MESH / "
+    "MTEXT / DICTIONARY / HATCH / MPOLYGON boundary paths / seed points / pattern lines through the real writer and the real loader, "
+    "compared with the payload before (documented canonical forms only). X5 (correspondence): the hand-made payload loaders "
+    "(Spline.load_spline_data, Mesh.load_mesh_data, MText.load_mtext_content, Dictionary.load_dict, BoundaryPaths.load_tags, "
+    "DXFPolygon.load_paths, Hatch.load_seeds, Pattern.load_tags, Leader.load_vertices, DXFGroup.load_group, Image boundary path, "
+    "MLine.load_vertices) on tag lists that the real writers produced, undamaged and with structured damage (delete / duplicate / "
+    "insert / swap tags), vs the loader models of Model/Payload.lean: loaded structure, tags left for the attribute loader, and the "
+    "tags the real writer / the model writer emit for the loaded structure. X6: C02's storage model (driver C02, op rt) on the exported "
+    "tags of typed API-built entities with random app data / reactors / extension dictionary / XDATA vs the real load -> export. X7: "
+    "instances of SPLINE, MESH, MTEXT, LEADER, IMAGE, HATCH, MPOLYGON with payloads of other sizes than the traced one: the real export minus the "
+    "tags the real loader drops vs the model's export on the stripped plan (Props section 8)."
 )
 TRUSTED_BASE = [
     "hand translation of dxfns.py/attributes.py/types.py into Model/Schema.lean (validated by X1-X3, not proved)",
-    "T-schema tracer (harness/props/c01.py: trace_export/trace_load): the event log of the wrapped real functions is what the code does",
-    "doubles are opaque bit patterns; Python == on floats is modelled for zeros/NaN only; float and string text formats are C03/C09",
+    "hand translation of the payload writers/loaders (spline.py, mesh.py, mtext.py, dictionary.py, boundary_paths.py, polygon.py, "
+    "hatch.py, pattern.py, leader.py, dxfgroups.py, image.py, mline.py) into Model/Payload.lean: validated by X5 (loader models on "
+    "real and damaged tag lists, writer models on every loaded structure) and by the T-ast fingerprint of the group codes in source "
+    "order (Gen/PayloadTables.lean, theorem payload_source_fingerprint); PATH_CODES / PATTERN_DEFINITION_LINE_CODES are regenerated "
+    "and used by the counted theorems themselves",
+    "T-schema tracer (harness/props/c01.py: trace_export/trace_load): the event log of the wrapped real functions is what the code does; "
+    "a dxf.discard(name) after the last generic loader call is handed to the model as an ignored ('*') name",
+    "doubles are opaque bit patterns; Python == on floats is modelled for zeros/NaN only; float and string text formats are C03/C09; "
+    "the double operations 360.0 - x (clockwise hatch arcs) and Vec2 subtraction (required spline edge tangents) are parameters of the "
+    "model (theorems for every function; the driver uses IEEE doubles), float32 rounding of MESH creases is a parameter (idempotent on "
+    "stored values)",
     "validators/fixers of DXFNamespace.__setattr__ and dxf.set() inside recover_graphic_attributes are outside the model",
     "BY_DESIGN / STRUCTURAL tables of the oracle: attributes that are computed at export, carry document structure or belong to "
     "another entity sub-type (each entry names the responsible code)",
+    "envelope (Props section 6) and document skeleton (section 7) are stated over the models of C02 (Model/Storage.lean, XTags.lean, "
+    "Gen/StorageTables.lean regenerated here as well) and C04/C05 (Model/Doc.lean): their tie to the source is the correspondence of "
+    "those properties; C01 adds its whole-document oracle O2 (XDATA, app data, reactors, extension dictionaries, owners, order)",
 ]
 ASSUMPTIONS = [
     "namespaces reachable through the public setter hold cast_value(code, value); the only exception found (RETURN_DEFAULT fixer "
@@ -46,13 +68,32 @@ ASSUMPTIONS = [
     "characters outside the file encoding (cp1252 below DXF R2007) are C09's subject and not generated here",
     "documents are built through the public factory API; bare new_entity() instances of types without factory method get every "
     "attribute populated first",
+    "payload values are of the type of their group code (tags as the tag compiler produces them); LEADER vertices are 3D vertices "
+    "(the loader keeps the raw tag value, the model its three components); MESH faces are not empty (face_to_array rejects an empty "
+    "face); hatch spline edges satisfy SplineEdge.export_dxf's own checks (knots present, weights match control points); "
+    "MLINE vertices have as many fill as line parameter tuples (MLineVertex.new enforces it)",
 ]
 OPEN = [
-    "bespoke export_entity/load_dxf_attribs code (HATCH, MESH, MULTILEADER, SPLINE arrays, DIMSTYLE handles, XDATA, app data, "
-    "reactors, extension dictionaries, entity order, handles) is oracle-only",
+    "still oracle-only: MULTILEADER context data, DIMSTYLE / VIEWPORT name<->handle conversion, DIMENSION override XDATA, ACIS data, "
+    "GEODATA, MTEXT columns / embedded objects, LTYPE pattern tags, "
+    "XRECORD / TagList payloads, underlay boundary paths; everything load_dxf_attribs does after the generic loader calls except the "
+    "payload loaders of Model/Payload.lean",
+    "attributes AND payload of any size in one theorem exist for SPLINE, MESH, MTEXT, LEADER, IMAGE, HATCH, MPOLYGON (…_entity_roundtrip "
+    "over the stripped plan = the traced plan without the payload tags of the traced instance; schemas_wf_stripped: wfPlan holds for "
+    "the stripped plan of every registered class); for DICTIONARY, GROUP, MLINE the namespace is independent of the payload at the level of fastLoad "
+    "(dict/group/mline_entity_roundtrip), for VIEWPORT (frozen layers) payload and attribute theorems are still separate statements joined by their interfaces (payload_side_conditions)",
+    "entity_roundtrip joins attribute plan and envelope by an abstract tag encoder (text form of a typed tag is C03's subject)",
+    "doc_roundtrip_skeleton is about handles, order, owners, block/layout tables (Model/Doc.lean); the content of each entity is the "
+    "subject of the entity level theorems; table entries and OBJECTS section ordering are covered by the oracle only",
+    "hatch arcs/ellipses with clockwise orientation come back with 360-(360-angle) (canonEdge): exact only when the double "
+    "subtraction is (hatch_edge_exact states the exact cases); the HATCH gradient rotation comes back as degrees(radians(r)) "
+    "(gradient_roundtrip: one ulp off for ~12 % of the doubles, e.g. 30.0 -> 29.999999999999996, stable afterwards): both are "
+    "unit/orientation conversions of the file format, stated as canonical forms, not reported as findings",
     "attr_roundtrip holds up to the sign of zero (simO); bit-exactness is proved for non-suppressed, non-2D values (attr_roundtrip_exact)",
-    "multi_tags_roundtrip_partial excludes texts with a literal '^J' (counterexample theorem + known finding C01-F10)",
-    "wfPlan fails for MATERIAL (all versions) and ATTRIB/ATTDEF (R12): genuine defects C01-F2 / C01-F9, listed as exceptions of schemas_wf",
+    "multi_tags_roundtrip_partial excludes texts with a literal '^J' (counterexample theorem + known finding C01-F10; the helper pair "
+    "is not used by the library)",
+    "wfPlan fails for MATERIAL (all versions): genuine defect C01-F2, listed as exception of schemas_wf (no small safe patch); the "
+    "former exceptions ATTRIB/ATTDEF R12 (C01-F9) are fixed and removed",
 ]
 VERSIONS = ["AC1009", "AC1015", "AC1018", "AC1021", "AC1024", "AC1027", "AC1032"]
 VNAME = {"AC1009": "R12", "AC1015": "R2000", "AC1018": "R2004", "AC1021": "R2007", "AC1024": "R2010",
@@ -496,6 +537,7 @@ class Hooks:
     def __init__(self):
         self.trace: Trace | None = None
         self.loads = None
+        self.discards = None  # [(attribute name, number of loader calls made before)] while a load is traced
         self.installed = False
 
     def install(self):
@@ -508,6 +550,15 @@ class Hooks:
         self._orig = (DXFNamespace._export_dxf_attribute_optional, SubclassProcessor.fast_load_dxfattribs,
                       SubclassProcessor.simple_dxfattribs_loader)
         o_exp, o_fast, o_simple = self._orig
+        self._orig_discard = DXFNamespace.discard
+        o_discard = self._orig_discard
+
+        def discard(self, key):
+            if hooks.loads is not None and hooks.discards is not None:
+                hooks.discards.append((key, len(hooks.loads)))
+            return o_discard(self, key)
+
+        DXFNamespace.discard = discard
 
         def exp(self, tagwriter, name):
             tr = hooks.trace
@@ -561,6 +612,7 @@ class Hooks:
         if not self.installed:
             return
         DXFNamespace._export_dxf_attribute_optional, SubclassProcessor.fast_load_dxfattribs, SubclassProcessor.simple_dxfattribs_loader = self._orig
+        DXFNamespace.discard = self._orig_discard
         self.installed = False
 
 
@@ -681,12 +733,32 @@ def trace_load(cls, text: str, segs, doc):
             ident[id(t)] = (k, lab)
     HOOKS.install()
     HOOKS.loads = []
+    HOOKS.discards = []
     try:
         ent = factory.load(xt, doc)
     finally:
         recs, HOOKS.loads = HOOKS.loads, None
+        discards, HOOKS.discards = HOOKS.discards, None
+    # `dxf.discard(name)` AFTER the last generic loader call (ATTRIB/ATTDEF in DXF R12 drop attribute_type, which shares
+    # group code 71 with text_generation_flag in the flat R12 tag list): loading a tag into that name and deleting the name
+    # afterwards is the same as ignoring the tag, so the name is handed to the model as an ignored ('*') name.  The X3
+    # load stream compares the namespace the real loader builds with the model's on this normalised plan.
+    dropped = {name for name, at in discards if at == len(recs)}
+
+    def norm_mapping(m):
+        if not dropped:
+            return m
+        out = {}
+        for code, v in m.items():
+            if isinstance(v, list):
+                out[code] = [("*" + x if x in dropped else x) for x in v]
+            else:
+                out[code] = "*" + v if v in dropped else v
+        return out
+
     steps = []
     for r in recs:
+        r["mapping"] = norm_mapping(r["mapping"])
         if r["kind"] == "simple":
             steps.append(("simple", r["mapping"]))
             continue
@@ -953,6 +1025,134 @@ def emit_lean(data) -> str:
     return "\n".join(out) + "\n"
 
 
+# ------------------------------------------------------------------ T-ast: payload code fingerprints
+PAYLOAD_FUNCS = [
+    # (lean name, source file, qualified function name)
+    ("spline_export_entity", "src/ezdxf/entities/spline.py", "Spline.export_entity"),
+    ("spline_export_data", "src/ezdxf/entities/spline.py", "Spline.export_spline_data"),
+    ("spline_load_data", "src/ezdxf/entities/spline.py", "Spline.load_spline_data"),
+    ("mesh_export_data", "src/ezdxf/entities/mesh.py", "Mesh.export_mesh_data"),
+    ("mesh_export_override", "src/ezdxf/entities/mesh.py", "Mesh.export_override_data"),
+    ("mesh_facelist_export", "src/ezdxf/entities/mesh.py", "FaceList.export_dxf"),
+    ("mesh_edgearray_export", "src/ezdxf/entities/mesh.py", "EdgeArray.export_dxf"),
+    ("mesh_load_data", "src/ezdxf/entities/mesh.py", "Mesh.load_mesh_data"),
+    ("mtext_export_content", "src/ezdxf/entities/mtext.py", "export_mtext_content"),
+    ("mtext_load_content", "src/ezdxf/entities/mtext.py", "MText.load_mtext_content"),
+    ("dict_load", "src/ezdxf/entities/dictionary.py", "Dictionary.load_dict"),
+    ("paths_export", "src/ezdxf/entities/boundary_paths.py", "BoundaryPaths.export_dxf"),
+    ("src_objects_export", "src/ezdxf/entities/boundary_paths.py", "export_source_boundary_objects"),
+    ("src_objects_pop", "src/ezdxf/entities/boundary_paths.py", "pop_source_boundary_objects_tags"),
+    ("polyline_path_export", "src/ezdxf/entities/boundary_paths.py", "PolylinePath.export_dxf"),
+    ("polyline_path_load", "src/ezdxf/entities/boundary_paths.py", "PolylinePath.load_tags"),
+    ("edge_path_export", "src/ezdxf/entities/boundary_paths.py", "EdgePath.export_dxf"),
+    ("line_edge_export", "src/ezdxf/entities/boundary_paths.py", "LineEdge.export_dxf"),
+    ("line_edge_load", "src/ezdxf/entities/boundary_paths.py", "LineEdge.load_tags"),
+    ("arc_edge_export", "src/ezdxf/entities/boundary_paths.py", "ArcEdge.export_dxf"),
+    ("arc_edge_load", "src/ezdxf/entities/boundary_paths.py", "ArcEdge.load_tags"),
+    ("ellipse_edge_export", "src/ezdxf/entities/boundary_paths.py", "EllipseEdge.export_dxf"),
+    ("ellipse_edge_load", "src/ezdxf/entities/boundary_paths.py", "EllipseEdge.load_tags"),
+    ("spline_edge_export", "src/ezdxf/entities/boundary_paths.py", "SplineEdge.export_dxf"),
+    ("spline_edge_load", "src/ezdxf/entities/boundary_paths.py", "SplineEdge.load_tags"),
+    ("hatch_load_paths", "src/ezdxf/entities/polygon.py", "DXFPolygon.load_paths"),
+    ("hatch_load_pattern", "src/ezdxf/entities/polygon.py", "DXFPolygon.load_pattern"),
+    ("hatch_load_seeds", "src/ezdxf/entities/hatch.py", "Hatch.load_seeds"),
+    ("hatch_export_seeds", "src/ezdxf/entities/hatch.py", "Hatch.export_seeds"),
+    ("pattern_line_export", "src/ezdxf/entities/pattern.py", "PatternLine.export_dxf"),
+    ("pattern_line_load", "src/ezdxf/entities/pattern.py", "PatternLine.load_tags"),
+    ("pattern_export", "src/ezdxf/entities/pattern.py", "Pattern.export_dxf"),
+    ("gradient_export", "src/ezdxf/entities/gradient.py", "Gradient.export_dxf"),
+    ("gradient_load", "src/ezdxf/entities/gradient.py", "Gradient.load_tags"),
+    ("mline_vertex_export", "src/ezdxf/entities/mline.py", "MLineVertex.export_dxf"),
+    ("mline_vertex_load", "src/ezdxf/entities/mline.py", "MLineVertex.load"),
+    ("image_export_boundary", "src/ezdxf/entities/image.py", "ImageBase.export_boundary_path"),
+    ("image_load_boundary", "src/ezdxf/entities/image.py", "ImageBase.load_boundary_path"),
+    ("leader_export_vertices", "src/ezdxf/entities/leader.py", "Leader.export_vertices"),
+    ("leader_load_vertices", "src/ezdxf/entities/leader.py", "Leader.load_vertices"),
+    ("group_export", "src/ezdxf/entities/dxfgroups.py", "DXFGroup.export_group"),
+    ("group_load", "src/ezdxf/entities/dxfgroups.py", "DXFGroup.load_group"),
+]
+
+
+def ast_group_codes(src: str, qualname: str, consts: dict):
+    """Group codes of a function in source order: the first argument of every write_tag2 / write_tag / write_vertex /
+    export_dxf(code=…) call and every constant compared with `code` / `tag.code` (==, in).  Names are resolved through
+    the module constants `consts`.  A change of a code, of the statement order, or a new / removed statement changes
+    the list."""
+    import ast
+
+    tree = ast.parse(src)
+    parts = qualname.split(".")
+    node = tree
+    for name in parts:
+        node = next(n for n in ast.walk(node) if isinstance(n, (ast.FunctionDef, ast.ClassDef)) and n.name == name)
+
+    def const(n):
+        if isinstance(n, ast.Constant) and isinstance(n.value, int) and not isinstance(n.value, bool):
+            return [n.value]
+        if isinstance(n, ast.Name) and isinstance(consts.get(n.id), int):
+            return [consts[n.id]]
+        if isinstance(n, ast.Name) and isinstance(consts.get(n.id), (tuple, set, frozenset, list)):
+            return sorted(consts[n.id])
+        if isinstance(n, ast.Attribute) and isinstance(consts.get(n.attr), int):
+            return [consts[n.attr]]
+        if isinstance(n, (ast.Tuple, ast.Set, ast.List)):
+            out = []
+            for x in n.elts:
+                out += const(x)
+            return out
+        return []
+
+    found = []
+    for n in ast.walk(node):
+        if isinstance(n, ast.Call):
+            fn = n.func.attr if isinstance(n.func, ast.Attribute) else (n.func.id if isinstance(n.func, ast.Name) else "")
+            if fn in ("write_tag2", "write_tag", "write_vertex") and n.args:
+                for c in const(n.args[0]):
+                    found.append((n.lineno, n.col_offset, c))
+            elif fn == "export_dxf":
+                for kw in n.keywords:
+                    if kw.arg == "code":
+                        for c in const(kw.value):
+                            found.append((n.lineno, n.col_offset, c))
+            elif fn in ("tag_index", "collect_consecutive_tags", "create_vertex_array", "collect_values", "split_mtext_string",
+                        "group_tags"):
+                for a in list(n.args) + [kw.value for kw in n.keywords]:
+                    for c in const(a):
+                        found.append((n.lineno, n.col_offset, c))
+        elif isinstance(n, ast.Compare):
+            left = n.left
+            is_code = (isinstance(left, ast.Name) and left.id == "code") or (isinstance(left, ast.Attribute) and left.attr == "code")
+            if is_code:
+                for cmp in n.comparators:
+                    for c in const(cmp):
+                        found.append((n.lineno, n.col_offset, c))
+    found.sort()
+    return [c for _, _, c in found]
+
+
+def payload_tables(ctx):
+    import importlib
+
+    lines = ["namespace EzdxfVerif.Gen.PayloadTables", ""]
+    from ezdxf.entities import polygon, dictionary, dxfgroups
+
+    lines.append(f"/-- `PATH_CODES` of entities/polygon.py -/\ndef pathCodes : List Int := {lean_list([str(c) for c in sorted(polygon.PATH_CODES)])}")
+    lines.append(f"/-- `PATTERN_DEFINITION_LINE_CODES` -/\ndef patternCodes : List Int := {lean_list([str(c) for c in sorted(polygon.PATTERN_DEFINITION_LINE_CODES)])}")
+    lines.append(f"def dictKeyCode : Int := {dictionary.KEY_CODE}\ndef dictValueCode : Int := {dictionary.VALUE_CODE}")
+    lines.append(f"def dictSearchCodes : List Int := {lean_list([str(c) for c in dictionary.SEARCH_CODES])}")
+    srcs = []
+    for name, file, qual in PAYLOAD_FUNCS:
+        src = ctx.src(file)
+        if file not in srcs:
+            srcs.append(file)
+        mod = importlib.import_module("ezdxf." + file[len("src/ezdxf/"):-3].replace("/", "."))
+        consts = {k: v for k, v in vars(mod).items() if isinstance(v, (int, tuple, set, frozenset)) and not isinstance(v, bool)}
+        codes = ast_group_codes(src, qual, consts)
+        lines.append(f"/-- {file}: {qual} -/\ndef {name} : List Int := {lean_list([str(c) for c in codes])}")
+    lines += ["", "end EzdxfVerif.Gen.PayloadTables", ""]
+    ctx.write_gen("PayloadTables", "\n".join(lines), srcs)
+
+
 def regenerate(ctx):
     for s in SRC_FILES:
         ctx.src(s)
@@ -965,6 +1165,14 @@ def regenerate(ctx):
     for n in data["notes"][:40]:
         ctx.note("T-schema note: " + n)
     ctx.write_gen("Schemas", emit_lean(data), srcs)
+    payload_tables(ctx)
+    # the envelope theorems (Props section 6) are stated over C02's storage model, whose statement-order tables
+    # (Gen/StorageTables.lean: export_base_class / export_dxf order, XDATA codes, ...) are extracted from the source by
+    # C02's regenerate: run it here too, so that C01 builds on a fresh tree and follows the current source
+    import importlib
+
+    c02 = importlib.import_module("props.c02" if __name__.startswith("props.") else "c02")
+    c02.regenerate(ctx)
 
 
 # ====================================================================================== protocol values
@@ -1565,10 +1773,13 @@ def entity_snapshot(e):
                              for app, tags in e.xdata.data.items() if app != "EZDXF"))  # EZDXF = meta data with time stamps (R12)
         if not xdata:
             xdata = None
+    # an EMPTY container (all XDATA / application data / reactor handles discarded) and no container at all are the same
+    # state: nothing is written for either (no 1001 list, no 102 group, no {ACAD_REACTORS group), and the loader creates the
+    # container only when the file holds such a group.  Observed as None in both cases (like a destroyed extension dictionary).
     appdata = None
     if e.appdata is not None:
-        appdata = tuple(sorted((app, tuple((t.code, t.value) for t in tags)) for app, tags in e.appdata.data.items()))
-    reactors = tuple(sorted(e.reactors.get())) if e.reactors is not None else None
+        appdata = tuple(sorted((app, tuple((t.code, t.value) for t in tags)) for app, tags in e.appdata.data.items())) or None
+    reactors = (tuple(sorted(e.reactors.get())) or None) if e.reactors is not None else None
     xdict = None
     if e.has_extension_dict:
         try:
@@ -2024,12 +2235,728 @@ def x4_cases(ctx):
     return cases
 
 
+# ====================================================================================== X5: bespoke payload codecs
+PF = [0.0, -0.0, 1.0, 0.5, -2.5, 5e-324, 1e300, 1 / 3, 90.0, 270.0, 359.5, 12.125, 1e-13, -1e-12, 2e-12, 0.1]
+F32 = [0.0, 0.5, 1.0, 2.5, -1.0, 0.25, 1024.0, -0.0]
+
+
+def merge_points(tags):
+    """what the tag compiler makes of a written tag sequence: x, y[, z] runs of a point code become one vertex"""
+    from ezdxf.lldxf.types import DXFVertex, DXFTag, POINT_CODES
+
+    out = []
+    i = 0
+    tags = list(tags)
+    while i < len(tags):
+        t = tags[i]
+        if isinstance(t, DXFVertex) or t.code not in POINT_CODES:
+            out.append(t)
+            i += 1
+            continue
+        c = t.code
+        comps = [t.value]
+        if i + 1 < len(tags) and not isinstance(tags[i + 1], DXFVertex) and tags[i + 1].code == c + 10:
+            comps.append(tags[i + 1].value)
+            if i + 2 < len(tags) and not isinstance(tags[i + 2], DXFVertex) and tags[i + 2].code == c + 20:
+                comps.append(tags[i + 2].value)
+        if len(comps) == 1:
+            raise ValueError(f"x coordinate {c} without y coordinate")
+        out.append(DXFVertex(c, tuple(float(v) for v in comps)))
+        i += len(comps)
+    return out
+
+
+def collect_tags(write, version="AC1032"):
+    c = Collector(version)
+    write(c)
+    return merge_points(c.tags)
+
+
+def ptags(tags) -> str:
+    return ";".join(ptag(t) for t in tags)
+
+
+def _fb(x) -> str:
+    return str(fbits(float(x)))
+
+
+def _p2(v) -> str:
+    return f"{_fb(v[0])}.{_fb(v[1])}"
+
+
+def _p3(v) -> str:
+    v = tuple(v)
+    return f"{_fb(v[0])}.{_fb(v[1])}.{_fb(v[2] if len(v) > 2 else 0.0)}"
+
+
+def _cps(s: str) -> str:
+    return ".".join(str(ord(c)) for c in s)
+
+
+def mutate_tags(rng, tags, extra, p=0.5):
+    """structured damage of a valid tag list: delete / duplicate / insert / swap"""
+    tags = list(tags)
+    if rng.random() > p:
+        return tags, False
+    for _ in range(rng.randint(1, 3)):
+        k = rng.random()
+        if k < 0.3 and tags:
+            del tags[rng.randrange(len(tags))]
+        elif k < 0.5 and tags:
+            i = rng.randrange(len(tags))
+            tags.insert(i, tags[i])
+        elif k < 0.85:
+            tags.insert(rng.randint(0, len(tags)), rng.choice(extra))
+        elif len(tags) > 1:
+            i = rng.randrange(len(tags) - 1)
+            tags[i], tags[i + 1] = tags[i + 1], tags[i]
+    return tags, True
+
+
+def show_edge(e) -> str:
+    t = type(e).__name__
+    if t == "LineEdge":
+        return f"L({_p2(e.start)},{_p2(e.end)})"
+    if t == "ArcEdge":
+        return f"A({_p2(e.center)},{_fb(e.radius)},{_fb(e.start_angle)},{_fb(e.end_angle)},{'true' if e.ccw else 'false'})"
+    if t == "EllipseEdge":
+        return (f"E({_p2(e.center)},{_p2(e.major_axis)},{_fb(e.ratio)},{_fb(e.start_angle)},{_fb(e.end_angle)},"
+                f"{'true' if e.ccw else 'false'})")
+    st = "N" if e.start_tangent is None else _p2(e.start_tangent)
+    et = "N" if e.end_tangent is None else _p2(e.end_tangent)
+    return (f"S({int(e.degree)},{int(e.rational)},{int(e.periodic)},[{','.join(_fb(k) for k in e.knot_values)}],"
+            f"[{','.join(_p2(c) for c in e.control_points)}],[{','.join(_fb(w) for w in e.weights)}],"
+            f"[{','.join(_p2(c) for c in e.fit_points)}],{st},{et})")
+
+
+def show_path(p) -> str:
+    hs = ",".join(_cps(h) for h in p.source_boundary_objects)
+    if type(p).__name__ == "PolylinePath":
+        vs = ",".join(f"{_fb(x)}.{_fb(y)}.{_fb(b)}" for x, y, b in p.vertices)
+        return f"P({int(p.path_type_flags)},{int(p.is_closed)},[{vs}],[{hs}])"
+    return f"G({int(p.path_type_flags)},[{','.join(show_edge(e) for e in p.edges)}],[{hs}])"
+
+
+def random_paths(rng):
+    from ezdxf.entities.boundary_paths import BoundaryPaths, PolylinePath, EdgePath, LineEdge, ArcEdge, EllipseEdge, SplineEdge
+    from ezdxf.math import Vec2
+
+    f = lambda: rng.choice(PF)
+    v2 = lambda: Vec2(f(), f())
+    paths = []
+    for _ in range(rng.randint(0, 3)):
+        hs = [format(rng.randint(1, 0xFFFF), "X") for _ in range(rng.choice([0, 0, 1, 3]))]
+        if rng.random() < 0.45:
+            p = PolylinePath()
+            nb = rng.random() < 0.5
+            p.set_vertices([(f(), f(), rng.choice([0.0, -0.0, 0.0]) if nb else f()) for _ in range(rng.randint(0, 4))],
+                           is_closed=rng.random() < 0.7)
+            p.path_type_flags = rng.choice([2, 3, 7, 19, 2 | 16, 3])
+        else:
+            p = EdgePath()
+            p.path_type_flags = rng.choice([0, 1, 4, 5, 16, 1])
+            for _ in range(rng.randint(0, 4)):
+                k = rng.randint(1, 4)
+                if k == 1:
+                    e = LineEdge()
+                    e.start, e.end = v2(), v2()
+                elif k == 2:
+                    e = ArcEdge()
+                    e.center, e.radius, e.start_angle, e.end_angle, e.ccw = v2(), f(), f(), f(), rng.random() < 0.5
+                elif k == 3:
+                    e = EllipseEdge()
+                    e.center, e.major_axis, e.ratio = v2(), v2(), f()
+                    e.start_angle, e.end_angle, e.ccw = f(), f(), rng.random() < 0.5
+                else:
+                    e = SplineEdge()
+                    e.degree, e.periodic = rng.choice([1, 2, 3, 5]), rng.choice([0, 1])
+                    n = rng.randint(0, 4)
+                    e.control_points = [v2() for _ in range(n)]
+                    e.knot_values = [f() for _ in range(rng.choice([0, n + 4, 2, 1]) if rng.random() < 0.15 else n + e.degree + 1)]
+                    if rng.random() < 0.4:
+                        e.weights = [f() for _ in range(n if rng.random() < 0.85 else n + 1)]
+                    if rng.random() < 0.4:
+                        e.fit_points = [v2() for _ in range(rng.randint(1, 3))]
+                    if rng.random() < 0.3:
+                        e.start_tangent = v2()
+                    if rng.random() < 0.3:
+                        e.end_tangent = v2()
+                    e.rational = rng.choice([0, 1])
+                p.edges.append(e)
+        p.source_boundary_objects = hs
+        paths.append(p)
+    return BoundaryPaths(paths)
+
+
+def x5_cases(ctx):
+    from ezdxf.lldxf.types import DXFTag, DXFVertex
+    from ezdxf.lldxf.tags import Tags
+    from ezdxf.entities import Spline, Mesh, MText, Dictionary, Hatch
+    from ezdxf.entities.mtext import export_mtext_content
+    from ezdxf.entities.boundary_paths import BoundaryPaths
+    from ezdxf.entities.pattern import Pattern, PatternLine
+    from ezdxf.lldxf.packedtags import VertexArray
+    from ezdxf.math import Vec2, Vec3
+
+    rng = ctx.rng("x5")
+    cases = []
+    S = "X5 payload codecs"
+    f = lambda: rng.choice(PF)
+    v3 = lambda: (f(), f(), f())
+    attr_pool = [DXFTag(70, 8), DXFTag(71, 3), DXFTag(42, 1e-9), DXFTag(43, 1e-10), DXFVertex(12, (0.0, 0.0, 0.0)),
+                 DXFVertex(12, (1.0, 0.0, 0.0)), DXFVertex(13, (1e-13, -0.0, 5e-324)), DXFVertex(13, (2e-12, 0.0, 0.0)),
+                 DXFVertex(210, (0.0, 0.0, 1.0)), DXFTag(100, "AcDbSpline"), DXFTag(44, 0.5)]
+
+    # ---- SPLINE
+    for _ in range(ctx.n(250, 2500)):
+        e = Spline()
+        e.knots = [f() for _ in range(rng.randint(0, 5))]
+        e.weights = [f() for _ in range(rng.choice([0, 0, 1, 2, 3]))]
+        e.control_points = [v3() for _ in range(rng.randint(0, 4))]
+        e.fit_points = [v3() for _ in range(rng.choice([0, 0, 1, 3]))]
+        a1 = [rng.choice(attr_pool) for _ in range(rng.randint(0, 3))]
+        a2 = [rng.choice(attr_pool) for _ in range(rng.randint(0, 4))]
+        data = collect_tags(lambda w: (w.write_tag2(72, e.knot_count()), w.write_tag2(73, e.control_point_count()),
+                                       w.write_tag2(74, e.fit_point_count())))
+        body = collect_tags(lambda w: e.export_spline_data(w))
+        tags, mut = mutate_tags(rng, a1 + data + a2 + body, attr_pool + [DXFTag(40, 2.0), DXFTag(41, 3.0), DXFVertex(10, (1.0, 2.0)),
+                                                                           DXFVertex(11, (1.0, 2.0, 3.0))], p=0.4)
+        e2 = Spline()
+        rest = list(e2.load_spline_data(Tags(tags)))
+        out = collect_tags(lambda w: (w.write_tag2(72, e2.knot_count()), w.write_tag2(73, e2.control_point_count()),
+                                      w.write_tag2(74, e2.fit_point_count()), e2.export_spline_data(w)))
+        resp = (f"k[{','.join(_fb(k) for k in e2.knots)}] w[{','.join(_fb(k) for k in e2.weights)}] "
+                f"c[{','.join(_p3(c) for c in e2.control_points)}] f[{','.join(_p3(c) for c in e2.fit_points)}]|{ptags(rest)}|{ptags(out)}")
+        cases.append(("pspl|" + ptags(tags), resp, bool(len(e.knots) or len(e.control_points) or mut)))
+        ctx.hist(S, "spline" + ("/damaged" if mut else ""))
+
+    # ---- MESH
+    for _ in range(ctx.n(250, 2500)):
+        m = Mesh()
+        nv = rng.randint(0, 5)
+        m._vertices = VertexArray(data=[v3() for _ in range(nv)]) if nv else VertexArray()
+        faces = [[rng.choice([0, 1, 2, 255, 256, 70000]) for _ in range(rng.randint(1, 5))] for _ in range(rng.randint(0, 4))]
+        m._faces.set_data(faces)
+        ne = rng.randint(0, 3)
+        m._edges.set_data([(rng.randint(0, 9), rng.randint(0, 9)) for _ in range(ne)])
+        m.creases = [rng.choice(F32) for _ in range(rng.choice([ne, ne, 0, ne + 2, max(ne - 1, 0)]))]
+        pre = [DXFTag(100, "AcDbSubDMesh"), DXFTag(71, 2), DXFTag(72, 0), DXFTag(91, rng.choice([0, 3]))][: rng.randint(0, 4)]
+        body = collect_tags(lambda w: (m.export_mesh_data(w), m.export_override_data(w)))
+        post = [DXFTag(90, 7)] * rng.choice([0, 0, 1])
+        tags, mut = mutate_tags(rng, pre + body + post, [DXFTag(90, 0), DXFTag(90, 2), DXFTag(92, 1), DXFTag(93, 2), DXFTag(94, 0),
+                                                          DXFTag(95, 1), DXFTag(140, 0.5), DXFVertex(10, (1.0, 2.0, 3.0)), DXFTag(91, 1)], p=0.45)
+        m2 = Mesh()
+        work = Tags(tags)
+        try:
+            m2.load_mesh_data(work, "ABC")
+            out = collect_tags(lambda w: (m2.export_mesh_data(w), m2.export_override_data(w)))
+            resp = (f"v[{','.join(_p3(c) for c in m2.vertices)}] f[{';'.join(','.join(str(int(i)) for i in fc) for fc in m2.faces)}] "
+                    f"e[{','.join(str(int(i)) for i in m2._edges.values)}] c[{','.join(_fb(c) for c in m2.creases)}]|{ptags(work)}|{ptags(out)}")
+        except Exception as ex:  # DXFStructureError: missing count tag
+            resp = "err"
+        cases.append(("pmesh|" + ptags(tags), resp, bool(nv or faces or mut)))
+        ctx.hist(S, "mesh" + ("/damaged" if mut else ""))
+
+    # ---- MTEXT content
+    alpha = ["a", "b", "^", "J", "\n", "\r", "\\", "P", "ä", " ", "^I", "\r\n", "€"]
+    for _ in range(ctx.n(200, 2000)):
+        n = rng.choice([0, 1, 2, 5, 20, 248, 249, 250, 251, 499, 500, 501, 750, 1003])
+        t = "".join(rng.choice(alpha) for _ in range(n))
+        if rng.random() < 0.5 and n >= 249:
+            k = rng.choice([249, 250, 499, 500])
+            t = t[:k - 1] + "^" * rng.randint(1, 3) + t[k:]
+        out = collect_tags(lambda w: export_mtext_content(t, w))
+        cases.append(("pmtextexp|" + _cps(t), ptags(out), len(t) >= 249 or "\n" in t or "^" in t))
+        ctx.hist(S, "mtext export")
+        pre = [DXFVertex(10, (1.0, 2.0, 3.0)), DXFTag(40, 2.5), DXFTag(71, 1)][: rng.randint(0, 3)]
+        post = [DXFTag(7, "Standard"), DXFTag(73, 1), DXFTag(44, 1.0)][: rng.randint(0, 3)]
+        tags, mut = mutate_tags(rng, pre + out + post, [DXFTag(1, "tail"), DXFTag(3, "part^"), DXFTag(3, ""), DXFTag(1, "x\ny\r"), DXFTag(7, "S")], p=0.4)
+        e2 = MText()
+        rest = list(e2.load_mtext_content(Tags(tags)))
+        out2 = collect_tags(lambda w: export_mtext_content(e2.text, w))
+        cases.append(("pmtext|" + ptags(tags), f"{_cps(e2.text)}|{ptags(rest)}|{ptags(out2)}", True))
+        ctx.hist(S, "mtext load" + ("/damaged" if mut else ""))
+
+    # ---- DICTIONARY
+    keys = ["A", "B", "ACAD_GROUP", "k" * 3, "", "Ä", "A", "b"]
+    for _ in range(ctx.n(200, 2000)):
+        d = Dictionary()
+        d._value_code = rng.choice([350, 350, 360])
+        for _ in range(rng.randint(0, 5)):
+            d._data[rng.choice(keys[:4] + keys[5:])] = format(rng.randint(1, 0xFFF), "X")
+        body = collect_tags(lambda w: d.export_dict(w))
+        pre = [DXFTag(280, 1), DXFTag(281, 1)][: rng.randint(0, 2)]
+        tags, mut = mutate_tags(rng, pre + body, [DXFTag(3, ""), DXFTag(3, "A"), DXFTag(350, "FF"), DXFTag(360, "EE"), DXFTag(350, ""),
+                                                  DXFTag(280, 0), DXFTag(3, "Z")], p=0.5)
+        d2 = Dictionary()
+        d2.load_dict(tags)
+        out = collect_tags(lambda w: d2.export_dict(w))
+        resp = f"{d2._value_code} " + ",".join(f"{_cps(k)}={_cps(v)}" for k, v in d2._data.items()) + "|" + ptags(out)
+        cases.append(("pdict|" + ptags(tags), resp, bool(d._data) or mut))
+        ctx.hist(S, "dictionary" + ("/damaged" if mut else ""))
+
+    # ---- HATCH / MPOLYGON boundary paths
+    path_extra = [DXFTag(97, 0), DXFTag(97, 2), DXFTag(330, "1F"), DXFTag(72, 0), DXFTag(72, 5), DXFTag(72, 1), DXFTag(72, 2), DXFTag(42, 0.5),
+                  DXFVertex(10, (1.0, 2.0)), DXFVertex(11, (3.0, 4.0)), DXFTag(73, 0), DXFTag(92, 1), DXFTag(92, 2), DXFTag(93, 1),
+                  DXFTag(40, 2.0), DXFTag(50, 10.0), DXFTag(51, 20.0), DXFVertex(12, (1.0, 0.0)), DXFTag(94, 2)]
+    for _ in range(ctx.n(500, 5000)):
+        bp = random_paths(rng)
+        hatch = rng.random() < 0.7
+        ver = rng.choice(["AC1015", "AC1018", "AC1024", "AC1032"])
+        try:
+            body = collect_tags(lambda w: bp.export_dxf(w, "HATCH" if hatch else "MPOLYGON"), ver)[1:]
+        except Exception:  # DXFValueError of SplineEdge.export_dxf: build the tags without that check
+            ctx.hist(S, "paths/export raises")
+            continue
+        tags, mut = mutate_tags(rng, body, path_extra, p=0.4)
+        if not tags or tags[0].code != 92:
+            mut = True
+        try:
+            if not tags or tags[0].code != 92:
+                raise AssertionError
+            b2 = BoundaryPaths.load_tags(Tags(tags))
+            shown = " ".join(show_path(p) for p in b2.paths)
+            try:
+                out = ptags(collect_tags(lambda w: b2.export_dxf(w, "HATCH" if hatch else "MPOLYGON"), ver)[1:])
+            except Exception:
+                out = "raises"
+            resp = shown + "|" + out
+        except Exception:
+            resp = "err"
+        if not tags or tags[0].code != 92:
+            # BoundaryPaths.load_tags asserts a leading 92 tag; the model of the group split simply skips what is in front
+            ctx.hist(S, "paths/no leading 92 (skipped)")
+        else:
+            cases.append((f"ppaths|{1 if ver >= 'AC1024' else 0}|{1 if hatch else 0}|" + ptags(tags), resp, bool(len(bp.paths)) or mut))
+            ctx.hist(S, "paths" + ("/damaged" if mut else "") + ("" if hatch else "/mpolygon"))
+        # the entity level: count tag 91, PATH_CODES run, what stays for the attribute loader
+        pre = [DXFTag(100, "AcDbHatch"), DXFVertex(10, (0.0, 0.0, 0.0)), DXFVertex(210, (0.0, 0.0, 1.0)), DXFTag(2, "SOLID"), DXFTag(70, 1),
+               DXFTag(71, 0)][1: rng.randint(1, 6)]
+        post = [DXFTag(75, 1), DXFTag(76, 1), DXFTag(47, 0.5), DXFTag(98, 1), DXFVertex(10, (1.0, 1.0))][: rng.randint(0, 5)]
+        full, mut2 = mutate_tags(rng, pre + [DXFTag(91, len(bp.paths))] + body + post, path_extra + [DXFTag(91, 0), DXFTag(75, 0)], p=0.3)
+        h = Hatch()
+        try:
+            rest = h.load_paths(Tags(full))
+            resp = " ".join(show_path(p) for p in h.paths) + "|" + ptags(rest)
+        except Exception:
+            resp = "err"
+        cases.append(("phatch|" + ptags(full), resp, True))
+        ctx.hist(S, "hatch load_paths" + ("/damaged" if mut2 else ""))
+
+    # ---- the whole AcDbHatch subclass: load_paths, load_gradient, load_pattern, load_seeds in the order of load_dxf_attribs
+    for _ in range(ctx.n(250, 2500)):
+        bp = random_paths(rng)
+        ver = rng.choice(["AC1015", "AC1018", "AC1024", "AC1032"])
+        try:
+            body = collect_tags(lambda w: bp.export_dxf(w, "HATCH"), ver)
+        except Exception:
+            continue
+        a1 = [DXFVertex(10, (0.0, 0.0, 0.0)), DXFVertex(210, (0.0, 0.0, 1.0)), DXFTag(2, "ANSI31"), DXFTag(70, 0), DXFTag(71, 0)][: rng.randint(0, 5)]
+        a2 = [DXFTag(75, 1), DXFTag(76, 1)]
+        patpart = []
+        if rng.random() < 0.5:
+            pat = Pattern([PatternLine(f(), (f(), f()), (f(), f()), [f() for _ in range(rng.randint(0, 3))]) for _ in range(rng.randint(0, 3))])
+            patpart = [DXFTag(52, 0.0), DXFTag(41, 1.0), DXFTag(77, 0)] + collect_tags(lambda w: pat.export_dxf(w, force=True))
+        hh = Hatch()
+        hh.seeds = [(f(), f()) for _ in range(rng.randint(0, 3))]
+        seedpart = collect_tags(lambda w: hh.export_seeds(w))
+        grad = [DXFTag(450, 1), DXFTag(451, 0), DXFTag(460, 0.0), DXFTag(461, 0.0), DXFTag(452, 0), DXFTag(462, 1.0), DXFTag(453, 2), DXFTag(463, 0.0),
+                DXFTag(63, 5), DXFTag(421, 255), DXFTag(463, 1.0), DXFTag(63, 2), DXFTag(421, 16776960), DXFTag(470, "LINEAR")] if rng.random() < 0.4 else []
+        mpoly = rng.random() < 0.3
+        if mpoly:
+            # the tag order of MPolygon.export_entity: pattern lines behind annotated_boundary / pixel_size, no seed points
+            try:
+                body = collect_tags(lambda w: bp.export_dxf(w, "MPOLYGON"), ver)
+            except Exception:
+                continue
+            lines = [t for t in patpart if t.code not in (52, 41, 77)]
+            arranged = (a1 + body + [DXFTag(76, 1)] + [t for t in patpart if t.code in (52, 41, 77)] + [DXFTag(73, 0), DXFTag(47, 0.5)] + lines
+                        + [DXFTag(63, 3), DXFVertex(11, (0.0, 0.0, 0.0)), DXFTag(99, 0)][: rng.randint(0, 3)] + grad)
+        else:
+            arranged = a1 + body + a2 + patpart + [DXFTag(47, 0.5)] + seedpart + grad
+        full, mut = mutate_tags(rng, arranged,
+                                path_extra + [DXFTag(91, 0), DXFTag(78, 1), DXFTag(98, 0), DXFTag(450, 0), DXFTag(53, 45.0), DXFTag(49, 1.0), DXFTag(47, 1.0)], p=0.35)
+        h = Hatch()
+        try:
+            work = Tags(full)
+            work = h.load_paths(work)
+            # load_gradient: everything from the 450 tag on (Gradient.load_tags is not modelled: the tags are compared)
+            try:
+                gi = work.tag_index(450)
+                gtags = list(work[gi:])
+            except Exception:
+                gtags = []
+            work = h.load_gradient(work)
+            work = h.load_pattern(work)
+            work = h.load_seeds(work)
+            pshow = "N" if h.pattern is None else " ".join(
+                f"{_fb(l.angle)},{_p2(l.base_point)},{_p2(l.offset)},[{','.join(_fb(x) for x in l.dash_length_items)}]" for l in h.pattern.lines)
+            resp = (" ".join(show_path(p) for p in h.paths) + "|" + ptags(gtags) + "|" + pshow + "|" + ",".join(_p2(sd) for sd in h.seeds)
+                    + "|" + ptags(work))
+        except Exception:
+            resp = "err"
+        cases.append(("phatchall|" + ptags(full), resp, True))
+        ctx.hist(S, ("mpolygon" if mpoly else "hatch") + " subclass" + ("/damaged" if mut else ""))
+
+    # ---- HATCH gradient data
+    from ezdxf.entities.gradient import Gradient
+    from ezdxf.colors import rgb2int
+
+    for _ in range(ctx.n(150, 1500)):
+        g = Gradient()
+        g.kind = rng.choice([0, 1])
+        g.rotation, g.centered, g.tint = rng.choice([0.0, 30.0, 33.3, 45.0, 60.0, 123.456, 359.5, 0.1]), rng.choice([0.0, 1.0, 0.5]), rng.choice([0.0, 0.25])
+        g.one_color = rng.choice([0, 1])
+        g.name = rng.choice(["LINEAR", "SPHERICAL", "CURVED", ""])
+        g.number_of_colors = rng.choice([2, 2, 2, 1, 0])
+        g.color1, g.color2 = tuple(rng.randint(0, 255) for _ in range(3)), tuple(rng.randint(0, 255) for _ in range(3))
+        g.aci1, g.aci2 = rng.choice([None, 1, 7]), rng.choice([None, 5, 256])
+        body = collect_tags(lambda w: g.export_dxf(w))
+        tags, mut = mutate_tags(rng, body, [DXFTag(63, 3), DXFTag(421, 255), DXFTag(421, -1), DXFTag(460, 1.0), DXFTag(470, "X"), DXFTag(453, 1), DXFTag(450, 0)], p=0.4)
+        try:
+            g2 = Gradient.load_tags(Tags(tags))
+            so = lambda o: "N" if o is None else str(int(o))
+            out = collect_tags(lambda w: g2.export_dxf(w))
+            resp = (f"{int(g2.kind)},{_fb(g2.rotation)},{_fb(g2.centered)},{int(g2.one_color)},{_fb(g2.tint)},{_cps(g2.name)},{int(g2.number_of_colors)},"
+                    f"{so(g2.aci1)},{rgb2int(g2.color1)},{so(g2.aci2)},{rgb2int(g2.color2)}|{ptags(out)}")
+        except (AssertionError, IndexError):
+            resp = "err"
+        cases.append(("pgrad|" + ptags(tags), resp, True))
+        ctx.hist(S, "gradient" + ("/damaged" if mut else ""))
+
+    # ---- VIEWPORT frozen layers: names -> 331 handles through the LAYER table, and back in post_load_hook
+    import ezdxf
+    from ezdxf.entities.viewport import Viewport
+    from ezdxf.lldxf.validator import make_table_key
+
+    vdoc = ezdxf.new("R2010")
+    lnames = ["Alpha", "beta", "GAMMA", "d e", "0"]
+    for nm in lnames[:-1]:
+        vdoc.layers.add(nm)
+    tbl = ";".join(f"{_cps(make_table_key(l.dxf.name))},{_cps(l.dxf.name)},{_cps(l.dxf.handle)}" for l in vdoc.layers)
+    for _ in range(ctx.n(100, 1000)):
+        names = [rng.choice(["Alpha", "ALPHA", "beta", "Beta", "gamma", "d e", "0", "unknown", "x"]) for _ in range(rng.randint(0, 5))]
+        vp = Viewport.new(dxfattribs={"center": (0, 0), "width": 1, "height": 1}, doc=vdoc)
+        vp.frozen_layers = list(names)
+        body = [t for t in collect_tags(lambda w: vp.export_entity(w), "AC1024") if t.code == 331]
+        pre = [DXFVertex(10, (0.0, 0.0, 0.0)), DXFTag(40, 1.0), DXFTag(41, 1.0), DXFTag(68, 2)][: rng.randint(0, 4)]
+        tags, mut = mutate_tags(rng, pre + body + [DXFTag(90, 0), DXFTag(1, "")][: rng.randint(0, 2)],
+                                [DXFTag(331, "FFFF"), DXFTag(331, vdoc.layers.get("0").dxf.handle), DXFTag(90, 1)], p=0.3)
+        v2 = Viewport()
+        rest = v2.load_frozen_layer_handles(Tags(tags))
+        v2.post_load_hook(vdoc)
+        cases.append((f"pfrozen|{tbl}|{';'.join(_cps(n) for n in names)}|{ptags(tags)}",
+                      ptags(body) + "|" + ",".join(_cps(n) for n in v2.frozen_layers) + "|" + ptags(rest), True))
+        ctx.hist(S, "frozen layers" + ("/damaged" if mut else ""))
+
+    # ---- seed points, pattern lines
+    for _ in range(ctx.n(150, 1500)):
+        h = Hatch()
+        h.seeds = [(f(), f()) for _ in range(rng.randint(0, 4))]
+        body = collect_tags(lambda w: h.export_seeds(w))
+        pre = [DXFTag(75, 1), DXFTag(76, 1), DXFTag(47, 0.25)][: rng.randint(0, 3)]
+        post = [DXFTag(450, 1), DXFTag(451, 0), DXFTag(460, 0.0)][: rng.choice([0, 0, 1, 3])]
+        tags, mut = mutate_tags(rng, pre + body + post, [DXFTag(98, 2), DXFVertex(10, (5.0, 6.0)), DXFTag(47, 1.0), DXFTag(20, 1.0)], p=0.4)
+        h2 = Hatch()
+        rest = h2.load_seeds(Tags(tags))
+        out = collect_tags(lambda w: h2.export_seeds(w))
+        cases.append(("pseeds|" + ptags(tags), ",".join(_p2(sd) for sd in h2.seeds) + "|" + ptags(rest) + "|" + ptags(out), True))
+        ctx.hist(S, "seeds" + ("/damaged" if mut else ""))
+        pat = Pattern([PatternLine(f(), (f(), f()), (f(), f()), [f() for _ in range(rng.randint(0, 4))]) for _ in range(rng.randint(0, 3))])
+        body = collect_tags(lambda w: pat.export_dxf(w))[1:]
+        tags, mut = mutate_tags(rng, body, [DXFTag(53, 45.0), DXFTag(49, 1.0), DXFTag(43, 2.0), DXFTag(79, 0), DXFTag(46, -1.0)], p=0.4)
+        p2 = Pattern.load_tags(Tags(tags))
+        out = collect_tags(lambda w: p2.export_dxf(w))[1:]
+        shown = " ".join(f"{_fb(l.angle)},{_p2(l.base_point)},{_p2(l.offset)},[{','.join(_fb(x) for x in l.dash_length_items)}]" for l in p2.lines)
+        cases.append(("ppat|" + ptags(tags), shown + "|" + ptags(out), True))
+        ctx.hist(S, "pattern" + ("/damaged" if mut else ""))
+    # ---- LEADER vertices, GROUP handles, IMAGE boundary, MLINE vertices
+    from ezdxf.entities import Leader, MLine
+    from ezdxf.entities.mline import MLineVertex
+    from ezdxf.entities.image import Image
+
+    class _E:  # stand-in for a group member (export_group reads entity.dxf.handle only)
+        def __init__(self, h):
+            self.dxf = type("D", (), {"handle": h})()
+
+    from ezdxf.entities.dxfgroups import DXFGroup
+
+    for _ in range(ctx.n(120, 1200)):
+        ld = Leader()
+        ld.vertices = [Vec3(v3()) for _ in range(rng.randint(0, 5))]
+        body = collect_tags(lambda w: ld.export_vertices(w))
+        pre = [DXFTag(3, "Standard"), DXFTag(71, 1), DXFTag(72, 0)][: rng.randint(0, 3)]
+        post = [DXFTag(340, "0"), DXFVertex(210, (0.0, 0.0, 1.0)), DXFVertex(213, (1.0, 0.0, 0.0))][: rng.randint(0, 3)]
+        tags, mut = mutate_tags(rng, pre + body + post, [DXFTag(76, 9), DXFVertex(10, (1.0, 2.0, 3.0)), DXFVertex(10, (4.0, 5.0, -6.0)), DXFTag(40, 1.0)], p=0.4)
+        l2 = Leader()
+        rest = list(l2.load_vertices(Tags(tags)))
+        out = collect_tags(lambda w: l2.export_vertices(w))
+        cases.append(("pleader|" + ptags(tags), ",".join(_p3(v) for v in l2.vertices) + "|" + ptags(rest) + "|" + ptags(out), True))
+        ctx.hist(S, "leader" + ("/damaged" if mut else ""))
+
+        g = DXFGroup()
+        hs = [format(rng.randint(1, 40), "X") for _ in range(rng.randint(0, 6))]
+        g._data = [_E(h) for h in hs]
+        body = collect_tags(lambda w: g.export_group(w))
+        tags, mut = mutate_tags(rng, [DXFTag(300, "d"), DXFTag(70, 0), DXFTag(71, 1)][: rng.randint(0, 3)] + body,
+                                [DXFTag(340, "1"), DXFTag(340, "2A"), DXFTag(70, 1)], p=0.4)
+        g2 = DXFGroup()
+        g2._handles = {}
+        g2.load_group(tags)
+        got = list(g2._handles.keys())
+        g2._data = [_E(h) for h in got]
+        out = collect_tags(lambda w: g2.export_group(w))
+        cases.append(("pgroup|" + ptags(tags), ",".join(_cps(h) for h in got) + "|" + ptags(out), True))
+        ctx.hist(S, "group" + ("/damaged" if mut else ""))
+
+        im = Image()
+        im._boundary_path = [Vec2(f(), f()) for _ in range(rng.randint(0, 5))]
+        body = collect_tags(lambda w: im.export_boundary_path(w))
+        pre = [DXFTag(90, 0), DXFVertex(10, (0.0, 0.0, 0.0)), DXFVertex(13, (640.0, 320.0)), DXFTag(91, len(im._boundary_path))][: rng.randint(0, 4)]
+        tags, mut = mutate_tags(rng, pre + body + [DXFTag(290, 1)] * rng.choice([0, 1]), [DXFVertex(14, (1.0, 2.0)), DXFTag(71, 2), DXFVertex(14, (1.0, 2.0, 3.0))], p=0.4)
+        work = Tags(tags)
+        im2 = Image()
+        im2.load_boundary_path(work.pop_tags(codes=(14,)))
+        out = collect_tags(lambda w: im2.export_boundary_path(w))
+        cases.append(("pimage|" + ptags(tags), ",".join(_p2(v) for v in im2._boundary_path) + "|" + ptags(work) + "|" + ptags(out), True))
+        ctx.hist(S, "image boundary" + ("/damaged" if mut else ""))
+
+        ml = MLine()
+        for _ in range(rng.randint(0, 3)):
+            n = rng.randint(0, 3)
+            ml.vertices.append(MLineVertex.new(v3(), v3(), v3(), [tuple(f() for _ in range(rng.randint(0, 3))) for _ in range(n)],
+                                               [tuple(f() for _ in range(rng.randint(0, 3))) for _ in range(n)]))
+        body = collect_tags(lambda w: ml.export_vertices(w))
+        tags, mut = mutate_tags(rng, [DXFTag(2, "Standard"), DXFTag(40, 1.0), DXFTag(72, 2)][: rng.randint(0, 3)] + body,
+                                [DXFTag(74, 0), DXFTag(74, 2), DXFTag(75, 1), DXFTag(41, 0.5), DXFTag(42, 0.25), DXFVertex(11, (1.0, 1.0, 1.0)),
+                                 DXFVertex(12, (0.0, 1.0, 0.0))], p=0.4)
+        m2 = MLine()
+        m2.load_vertices(Tags(tags))
+        sll = lambda ll: ";".join(",".join(_fb(x) for x in l) for l in ll)
+        shown = " ".join(f"{_p3(v.location)},{_p3(v.line_direction)},{_p3(v.miter_direction)},[{sll(v.line_params)}],[{sll(v.fill_params)}]" for v in m2.vertices)
+        out = collect_tags(lambda w: m2.export_vertices(w))
+        cases.append(("pmline|" + ptags(tags), shown + "|" + ptags(out), True))
+        ctx.hist(S, "mline" + ("/damaged" if mut else ""))
+    return cases
+
+
+# ====================================================================================== X6: envelope of API-built typed entities
+def x6_cases(ctx):
+    """The envelope theorems (Props section 6) are stated over C02's storage model, which C02 ties to the source with unknown
+    (tag storage) entities.  Here the same model (driver C02, op `rt` = export(load t)) is run on the exported tags of TYPED entities
+    built through the API with random application data, reactors, extension dictionary and XDATA, against the real
+    load (factory.load + post_load_hook) -> export_dxf of the typed entity: both must return the exported tags unchanged."""
+    import importlib
+
+    import ezdxf
+    from ezdxf.entities import factory
+    from ezdxf.lldxf.extendedtags import ExtendedTags
+    from ezdxf.lldxf.tagwriter import TagWriter
+
+    c02 = importlib.import_module("props.c02" if __name__.startswith("props.") else "c02")
+    from leanfmt import cps
+
+    rng = ctx.rng("x6")
+    doc = ezdxf.new("R2010")
+    msp = doc.modelspace()
+    doc.blocks.new("B1")
+    S = "X6 envelope of typed entities"
+
+    def text_of(e):
+        st = io.StringIO()
+        e.export_dxf(TagWriter(st, dxfversion="AC1024"))
+        return st.getvalue()
+
+    def pairs(text):
+        lines = text.split("\n")
+        return [(int(lines[i]), lines[i + 1]) for i in range(0, len(lines) - 1, 2)]
+
+    builders = [
+        lambda: msp.add_line((0, 0), (1, 1)), lambda: msp.add_circle((1, 2), 3.5), lambda: msp.add_arc((0, 0), 1, 10, 200),
+        lambda: msp.add_point((1, 2, 3)), lambda: msp.add_text("abc"), lambda: msp.add_mtext("x" * 300),
+        lambda: msp.add_lwpolyline([(0, 0), (1, 0, 0.1, 0.2, 0.5), (1, 1)]), lambda: msp.add_ellipse((0, 0), (2, 0), 0.5),
+        lambda: msp.add_blockref("B1", (1, 1)), lambda: msp.add_3dface([(0, 0), (1, 0), (1, 1), (0, 1)]),
+        lambda: msp.add_spline(fit_points=[(0, 0), (1, 1), (2, 0)]), lambda: msp.add_solid([(0, 0), (1, 0), (1, 1)]),
+    ]
+    xd_pool = [(1000, "text"), (1070, 7), (1040, 2.5), (1071, 123456), (1002, "{"), (1002, "}"), (1005, "FF"), (1000, "")]
+    ad_pool = [(1, "one"), (40, 1.5), (70, 3), (330, "1A"), (100, "looks like a marker"), (102, "nested?")]
+    cases = []
+    for i in range(ctx.n(240, 2400)):
+        e = builders[i % len(builders)]()
+        alive = []
+        for k in range(rng.choice([0, 0, 1, 2])):
+            e.set_app_data(rng.choice(["MYAPP", "OTHER", "EZDXF"]) + str(k), [rng.choice(ad_pool[:4] + ad_pool[4:5]) for _ in range(rng.randint(1, 3))])
+        if rng.random() < 0.4:
+            e.set_reactors([format(rng.randint(1, 0xFFFF), "X") for _ in range(rng.randint(1, 4))])
+        if rng.random() < 0.4:
+            xd = e.new_extension_dict()
+            alive.append(xd.dictionary.dxf.handle)
+        for k in range(rng.choice([0, 0, 1, 2])):
+            e.set_xdata(["APPA", "APPB", "ACAD"][k] if rng.random() < 0.8 else "APPA", [rng.choice(xd_pool) for _ in range(rng.randint(0, 4))])
+        try:
+            t1 = text_of(e)
+            e2 = factory.load(ExtendedTags.from_text(t1), doc)
+            e2.post_load_hook(doc)
+            t2 = text_of(e2)
+            e3 = factory.load(ExtendedTags.from_text(t2), doc)
+            e3.post_load_hook(doc)
+            t3 = text_of(e3)
+            resp = "ok " + c02.enc_tags(pairs(t2)) + "|ok " + c02.enc_tags(pairs(t3))
+        except Exception as ex:  # noqa
+            resp = f"err other:{type(ex).__name__}"
+        req = f"rt|{','.join(cps(h) for h in alive)}|{c02.enc_tags(pairs(t1))}"
+        cases.append((req, resp, bool(alive) or "102" in t1 or "1001" in t1))
+        ctx.hist(S, e.dxftype())
+        if resp.startswith("ok") and pairs(t2) != pairs(t1):
+            ctx.fail(f"envelope/{e.dxftype()}", f"export -> load -> export of a typed {e.dxftype()} with envelope changed the tags: "
+                     f"{[p for p in pairs(t1) if p not in pairs(t2)][:6]} -> {[p for p in pairs(t2) if p not in pairs(t1)][:6]}", {"op": "x6", "i": i})
+    return cases
+
+
+# ====================================================================================== X7: stripped plans, payloads of other sizes
+def strip_segs(segs, steps):
+    """remove from the traced segments the raw events that the entity's own loader dropped before fast_load_dxfattribs
+    (labels = event index + 1, per subclass) and print them like expent_line with labels renumbered"""
+    drops = {}
+    for st in steps:
+        if st[0] == "fast":
+            drops.setdefault(st[2], set()).update(st[4])
+    out = []
+    for k, (marker, evs) in enumerate(segs):
+        kept = [ev for i, ev in enumerate(evs) if (i + 1) not in drops.get(k, ())]
+        out.append((marker, kept))
+    return out
+
+
+def x7_cases(ctx):
+    """Props section 8 states the attribute theorems for `stripPlan p` (the traced plan without the payload tags of the
+    traced instance) and claims that it describes the entity for a payload of ANY size.  Here instances with payloads of
+    other sizes than the traced one are exported by the real code, the tags the real loader drops are removed from the
+    trace, and what remains (attribute tags with values, raw tags that stay) is compared with the model's export on the
+    stripped plan."""
+    import ezdxf
+    from ezdxf.entities import factory
+    from ezdxf.lldxf.types import cast_value
+    from ezdxf.math import Vec3
+
+    rng = ctx.rng("x7")
+    data = schemas(ctx)
+    doc = ezdxf.new("R2018")
+    zoo = build_zoo(doc)
+    load_docs = {v: ezdxf.new(VNAME[v]) for v in VERSIONS}
+    f = lambda: rng.choice([0.0, 1.0, 2.5, -3.0, 0.5, 10.0])
+
+    def m_spline(e):
+        n = rng.randint(0, 9)
+        e.control_points = [(f(), f(), f()) for _ in range(n)]
+        e.knots = sorted(f() for _ in range(rng.choice([0, n + 4])))
+        e.weights = [1.0 + abs(f()) for _ in range(rng.choice([0, n]))]
+        e.fit_points = [(f(), f(), f()) for _ in range(rng.choice([0, 3, 6]))]
+
+    def m_mesh(e):
+        with e.edit_data() as md:
+            nv = rng.randint(3, 8)
+            md.vertices = [(f(), f(), f()) for _ in range(nv)]
+            md.faces = [[rng.randrange(nv) for _ in range(rng.randint(3, 5))] for _ in range(rng.randint(1, 5))]
+            md.edges = [(rng.randrange(nv), rng.randrange(nv)) for _ in range(rng.randint(0, 4))]
+            md.edge_crease_values = [rng.choice(F32) for _ in range(len(md.edges))]
+
+    def m_mtext(e):
+        e.text = "".join(rng.choice(["a", "b ", "^", "\\P", "ä"]) for _ in range(rng.choice([0, 3, 249, 250, 251, 700])))
+
+    def m_leader(e):
+        e.vertices = [Vec3(f(), f(), f()) for _ in range(rng.randint(2, 7))]
+
+    def m_image(e):
+        e.set_boundary_path([(f(), f()) for _ in range(rng.randint(2, 7))])
+
+    def m_hatch(e):
+        e.paths.clear()
+        for _ in range(rng.randint(1, 3)):
+            if rng.random() < 0.5:
+                e.paths.add_polyline_path([(f(), f(), rng.choice([0, 0, 0.5])) for _ in range(rng.randint(2, 5))], is_closed=rng.random() < 0.5)
+            else:
+                ep = e.paths.add_edge_path()
+                for _ in range(rng.randint(1, 3)):
+                    ep.add_line((f(), f()), (f(), f()))
+                if rng.random() < 0.5:
+                    ep.add_arc((f(), f()), radius=2.0, start_angle=0, end_angle=90, ccw=rng.random() < 0.5)
+        if rng.random() < 0.5:
+            e.set_seed_points([(f(), f()) for _ in range(rng.randint(1, 3))])
+
+    def m_mpolygon(e):
+        e.paths.clear()
+        for _ in range(rng.randint(1, 3)):
+            e.paths.add_polyline_path([(f(), f(), rng.choice([0, 0, 0.5])) for _ in range(rng.randint(2, 5))], is_closed=rng.random() < 0.5)
+
+    mutators = {"SPLINE": m_spline, "MESH": m_mesh, "MTEXT": m_mtext, "LEADER": m_leader, "IMAGE": m_image, "HATCH": m_hatch,
+                "MPOLYGON": m_mpolygon}
+    cases = []
+    S = "X7 stripped plans"
+    for c in data["classes"]:
+        mut = mutators.get(c["dxftype"])
+        e = zoo.get(c["dxftype"])
+        if mut is None or e is None:
+            continue
+        cls = factory.ENTITY_CLASSES[c["dxftype"]]
+        plans = {p["ver"]: p for p in c["plans"]}
+        fill0 = None
+        if c["dxftype"] == "MPOLYGON":
+            # MPolygon.export_entity writes the pattern attributes only for solid_fill == 0: stay (mostly) in the traced branch
+            traced = {ev[1] for p in c["plans"] for _, evs in p["segs"] for ev in evs if ev[0] == "attr"}
+            fill0 = 0 if "pattern_angle" in traced else 1
+        for k in range(ctx.n(6, 40)):
+            try:
+                mut(e)
+            except Exception as ex:  # noqa
+                ctx.hist(S, f"{c['dxftype']}: mutator raised {type(ex).__name__}")
+                continue
+            randomize_namespace(e, rng)
+            if fill0 is not None and rng.random() < 0.7:
+                e.dxf.solid_fill = fill0  # the export shape of HATCH / MPOLYGON depends on it: mostly keep the traced branch
+            for ver in VERSIONS:
+                if vernum(ver) not in plans or (ctx.quick and rng.random() < 0.4):
+                    continue
+                try:
+                    tr = trace_export(e, ver)
+                    if tr is None:
+                        continue
+                    text, segs = tr
+                    steps, recs, ent = trace_load(cls, text, segs, load_docs[ver])
+                except Exception as ex:  # noqa
+                    ctx.hist(S, f"{c['dxftype']}: trace raised {type(ex).__name__}")
+                    continue
+                ns = {}
+                for k2, v in e.dxf.all_existing_dxf_attribs().items():
+                    if k2 in ("handle", "owner") or v is None:
+                        continue
+                    a = cls.DXFATTRIBS.get(k2)
+                    ns[k2] = cast_value(a.code, v) if a is not None and a.code > 0 else v
+                try:
+                    nsline = pns(ns)
+                except ValueError:
+                    continue
+                stripped = strip_segs(segs, steps)
+                pl = plans[vernum(ver)]
+                if plan_shape(stripped) != plan_shape(strip_segs(pl["segs"], pl["loads"])):
+                    # a data dependent branch of export_entity (MPOLYGON / HATCH write the pattern attributes only for
+                    # solid_fill == 0): the generated plan describes the other shape, as in X3
+                    ctx.hist(S, c["dxftype"] + ": other export shape (data dependent, skipped)")
+                    continue
+                cases.append((f"expents|{enc_name(c['dxftype'])}|{vernum(ver)}|0|{nsline}", expent_line(stripped), True))
+                ctx.hist(S, c["dxftype"])
+    return cases
+
+
 def correspond(ctx):
     ctx.correspond("X1 export one attribute", "C01", x1_cases(ctx), build=DRIVER_DEPS)
     ctx.correspond("X2 generic loaders", "C01", x2_cases(ctx), build=DRIVER_DEPS)
     exp_cases, load_cases = x3_cases(ctx)
     ctx.correspond("X3 registered classes", "C01", exp_cases + load_cases, build=DRIVER_DEPS)
     ctx.correspond("X4 payload codecs", "C01", x4_cases(ctx), build=DRIVER_DEPS)
+    ctx.correspond("X5 payload codecs", "C01", x5_cases(ctx), build=DRIVER_DEPS)
+    ctx.correspond("X7 stripped plans", "C01", x7_cases(ctx), build=DRIVER_DEPS)
+    ctx.correspond("X6 envelope of typed entities", "C02", x6_cases(ctx), build=["EzdxfVerif.Model.Storage", "Drivers.Proto"])
     # the generated plans against the model's own well-formedness (coverage numbers for the evidence)
     data = schemas(ctx)
     reqs = []
@@ -2180,12 +3107,23 @@ def build_rich(doc, rng, ver):
                     ep.add_spline(fit_points=[(0, 0), (1, 2), (2, 0)], control_points=[(0, 0), (1, 2), (2, 0), (3, 3)],
                                   knot_values=[0, 0, 0, 0, 1, 1, 1, 1], weights=[1, 2, 1, 1], degree=3,
                                   start_tangent=(1, 2), end_tangent=(1, -2))
+            if rng.random() < 0.5:
+                # associative hatch: source boundary objects (97 n, 330 …) on the first path, further paths behind it
+                src = [x for x in ents if x.is_alive and x.dxftype() in ("LINE", "CIRCLE", "ARC", "LWPOLYLINE", "SPLINE", "ELLIPSE")]
+                if src:
+                    rng.shuffle(src)
+                    h.associate(h.paths[0], src[: rng.randint(1, 3)])
+                    if rng.random() < 0.5:
+                        h.paths.add_polyline_path([(5, 5), (6, 5), (6, 6, rng.choice([0, 0.25]))], is_closed=True, flags=16)
+                    if len(h.paths) > 1 and rng.random() < 0.5:
+                        h.associate(h.paths[-1], src[-1:])
             k = rng.random()
             if k < 0.35:
                 h.set_pattern_fill("ANSI31", scale=rng.choice([0.5, 1.0]), angle=rng.choice([0, 45]))
             elif k < 0.6 and ver >= "AC1018":
                 h.set_gradient(color1=(10, 20, 30), color2=(200, 100, 0), rotation=rng.choice([0, 33.3]), centered=rng.choice([0.0, 1.0]),
                                one_color=int(rng.random() < 0.3), name=rng.choice(["LINEAR", "SPHERICAL"]))
+                h.gradient.aci1, h.gradient.aci2 = rng.choice([None, None, 1]), rng.choice([None, 5, 30])
             if rng.random() < 0.3:
                 h.set_seed_points([rp(), rp()])
             ents.append(h)
@@ -2420,12 +3358,203 @@ def o4_probes(ctx):
             ctx.fail(f"multitags/{kind}/{t[:20]!r}", f"multi_tags_to_text(text_to_multi_tags({t[:40]!r})) = {back[:40]!r}", {"op": "multitags", "text": t})
 
 
+# ====================================================================================== O5: payload codecs, real writer -> real loader
+def o5_one(ctx, kind: str, seed: int, report=True):
+    """one payload of `kind` generated from `seed`: real export -> real load, compared with what the property allows
+    (documented canonical forms only).  Returns None or (what, detail)."""
+    import copy
+    import random
+    from ezdxf.lldxf.types import DXFTag
+    from ezdxf.lldxf.tags import Tags
+    from ezdxf.entities import Spline, Mesh, MText, Dictionary, Hatch
+    from ezdxf.entities.mtext import export_mtext_content
+    from ezdxf.entities.boundary_paths import BoundaryPaths
+    from ezdxf.entities.pattern import Pattern, PatternLine
+    from ezdxf.lldxf.packedtags import VertexArray
+
+    rng = random.Random(seed)
+    f = lambda: rng.choice(PF)
+    v3 = lambda: (f(), f(), f())
+    if kind == "SPLINE":
+        e = Spline()
+        e.knots = [f() for _ in range(rng.randint(0, 6))]
+        e.weights = [f() for _ in range(rng.choice([0, 1, 2, 4]))]
+        e.control_points = [v3() for _ in range(rng.randint(0, 5))]
+        e.fit_points = [v3() for _ in range(rng.choice([0, 1, 3]))]
+        tags = ([DXFTag(100, "AcDbSpline"), DXFTag(70, 8), DXFTag(71, 3)]
+                + collect_tags(lambda w: (w.write_tag2(72, e.knot_count()), w.write_tag2(73, e.control_point_count()),
+                                          w.write_tag2(74, e.fit_point_count()), w.write_tag2(42, 1e-9), e.export_spline_data(w))))
+        e2 = Spline()
+        rest = list(e2.load_spline_data(Tags(tags)))
+        want = ([_fb(k) for k in e.knots], [_fb(k) for k in e.weights], [_p3(c) for c in e.control_points], [_p3(c) for c in e.fit_points])
+        got = ([_fb(k) for k in e2.knots], [_fb(k) for k in e2.weights], [_p3(c) for c in e2.control_points], [_p3(c) for c in e2.fit_points])
+        if want != got:
+            return "SPLINE payload", f"{want} -> {got}"
+        if [t.code for t in rest] != [100, 70, 71, 72, 73, 74, 42]:
+            return "SPLINE attribute tags", f"codes left for the attribute loader: {[t.code for t in rest]}"
+    elif kind == "MESH":
+        m = Mesh()
+        nv = rng.randint(1, 5)
+        m._vertices = VertexArray(data=[v3() for _ in range(nv)])
+        faces = [[rng.choice([0, 1, 2, 255, 256, 70000]) for _ in range(rng.randint(1, 6))] for _ in range(rng.randint(1, 4))]
+        m._faces.set_data(faces)
+        ne = rng.randint(0, 4)
+        edges = [(rng.randint(0, 9), rng.randint(0, 9)) for _ in range(ne)]
+        m._edges.set_data(edges)
+        cr = [rng.choice(F32) for _ in range(rng.choice([ne, ne, 0, ne + 2, max(ne - 1, 0)]))]
+        m.creases = cr
+        tags = [DXFTag(100, "AcDbSubDMesh"), DXFTag(71, 2), DXFTag(72, 0), DXFTag(91, 0)] + collect_tags(
+            lambda w: (m.export_mesh_data(w), m.export_override_data(w)))
+        m2 = Mesh()
+        work = Tags(tags)
+        m2.load_mesh_data(work, "ABC")
+        want_cr = (cr[:ne] + [0.0] * max(ne - len(cr), 0))
+        want = ([_p3(v) for v in m.vertices], [list(fc) for fc in faces], [i for ed in edges for i in ed], [_fb(c) for c in want_cr])
+        got = ([_p3(v) for v in m2.vertices], [list(fc) for fc in m2.faces], list(m2._edges.values), [_fb(c) for c in m2.creases])
+        if want != got:
+            return "MESH payload", f"{want} -> {got}"
+        if [t.code for t in work] != [100, 71, 72, 91, 90]:
+            return "MESH attribute tags", f"codes left for the attribute loader: {[t.code for t in work]}"
+    elif kind == "MTEXT":
+        alpha = ["a", "b", "^", "J", "\n", "\r", "\\", "P", "ä", " ", "^I", "\r\n", "€", "中"]
+        n = rng.choice([0, 1, 2, 5, 20, 248, 249, 250, 251, 499, 500, 501, 750, 1003, 2049])
+        t = "".join(rng.choice(alpha) for _ in range(n))
+        if rng.random() < 0.5 and n >= 249:
+            k = rng.choice([249, 250, 499, 500])
+            t = t[:k - 1] + "^" * rng.randint(1, 3) + t[k:]
+        tags = [DXFTag(40, 2.5)] + collect_tags(lambda w: export_mtext_content(t, w)) + [DXFTag(7, "Standard")]
+        if any(len(tg.value) > 250 for tg in tags if tg.code in (1, 3)):
+            return "MTEXT chunk longer than 250 characters", repr(t[:60])
+        e2 = MText()
+        rest = list(e2.load_mtext_content(Tags(tags)))
+        want = t.replace("\r", "").replace("\n", "\\P")
+        if e2.text != want:
+            i = next((i for i, (a, b) in enumerate(zip(e2.text, want)) if a != b), min(len(want), len(e2.text)))
+            return "MTEXT text", f"length {len(want)} -> {len(e2.text)}, first difference at {i}: {want[i-3:i+3]!r} -> {e2.text[i-3:i+3]!r}"
+        if [tg.code for tg in rest] != [40, 7]:
+            return "MTEXT attribute tags", str([tg.code for tg in rest])
+    elif kind == "DICTIONARY":
+        d = Dictionary()
+        d._value_code = rng.choice([350, 350, 360])
+        for _ in range(rng.randint(0, 6)):
+            d._data[rng.choice(["A", "B", "ACAD_GROUP", "kkk", "", "Ä", "b", "a b"])] = format(rng.randint(1, 0xFFF), "X")
+        tags = [DXFTag(280, 1), DXFTag(281, 1)] + collect_tags(lambda w: d.export_dict(w))
+        d2 = Dictionary()
+        d2.load_dict(tags)
+        if list(d2._data.items()) != list(d._data.items()):
+            return "DICTIONARY entries", f"{list(d._data.items())} -> {list(d2._data.items())}"
+        if d._data and d2._value_code != d._value_code:
+            return "DICTIONARY value code", f"{d._value_code} -> {d2._value_code}"
+    elif kind in ("HATCH", "MPOLYGON"):
+        bp = random_paths(rng)
+        if not len(bp.paths):
+            return None
+        ver = rng.choice(["AC1015", "AC1018", "AC1024", "AC1032"])
+        try:
+            body = collect_tags(lambda w: bp.export_dxf(w, kind), ver)
+        except Exception:
+            return None  # SplineEdge.export_dxf refuses inconsistent data (DXFValueError)
+        # what the property allows to differ: `bp` is shown AFTER the export (required tangents, rational flag are set by
+        # the writer), all-zero bulges come back as 0.0, clockwise arcs are stored as 360 - angle (exact for the angles used
+        # here?) -> computed with the same float expression, MPOLYGON polyline paths have no source boundary objects
+        want = []
+        for pth in bp.paths:
+            q = copy.deepcopy(pth)
+            if type(q).__name__ == "PolylinePath":
+                if not any(b for _, _, b in q.vertices):
+                    q.vertices = [(x, y, 0.0) for x, y, _ in q.vertices]
+                if kind == "MPOLYGON":
+                    q.source_boundary_objects = []
+            else:
+                for ed in q.edges:
+                    if type(ed).__name__ in ("ArcEdge", "EllipseEdge") and not ed.ccw:
+                        ed.start_angle, ed.end_angle = 360.0 - (360.0 - ed.start_angle), 360.0 - (360.0 - ed.end_angle)
+            want.append(show_path(q))
+        pre = [DXFTag(100, "AcDbHatch"), DXFTag(2, "SOLID"), DXFTag(70, 1), DXFTag(71, 1)]
+        post = [DXFTag(75, 1), DXFTag(76, 1), DXFTag(98, 0)] if kind == "HATCH" else [DXFTag(76, 1), DXFTag(73, 0), DXFTag(47, 1.0)]
+        h = Hatch()
+        rest = h.load_paths(Tags(pre[1:] + body + post))
+        got = [show_path(pth) for pth in h.paths]
+        if got != want:
+            j = next((j for j, (a, b) in enumerate(zip(got, want)) if a != b), min(len(got), len(want)))
+            return f"{kind} boundary paths", (f"{len(want)} paths -> {len(got)}; path {j}: {(want[j] if j < len(want) else '-')[:200]} -> "
+                                               f"{(got[j] if j < len(got) else '-')[:200]}")
+        if [tg.code for tg in rest] != [tg.code for tg in pre[1:] + post]:
+            return f"{kind} attribute tags", f"left for the attribute loader: {[tg.code for tg in rest]}"
+        # second cycle: what came back is written and read again without any further change
+        body2 = collect_tags(lambda w: h.paths.export_dxf(w, kind), ver)
+        h2 = Hatch()
+        h2.load_paths(Tags(pre[1:] + body2 + post))
+        got2 = [show_path(pth) for pth in h2.paths]
+        if got2 != got:
+            j = next((j for j, (a, b) in enumerate(zip(got2, got)) if a != b), min(len(got), len(got2)))
+            return f"{kind} boundary paths, second cycle", f"path {j}: {(got[j] if j < len(got) else '-')[:200]} -> {(got2[j] if j < len(got2) else '-')[:200]}"
+    elif kind == "GRADIENT":
+        import math
+        from ezdxf.entities.gradient import Gradient
+
+        g = Gradient()
+        g.rotation = rng.choice([0.0, 30.0, 33.3, 45.0, 60.0, 123.456, 359.5, 0.1, 270.0])
+        g.centered, g.tint, g.one_color = rng.choice([0.0, 1.0]), rng.choice([0.0, 0.25]), rng.choice([0, 1])
+        g.name = rng.choice(["LINEAR", "SPHERICAL", "CURVED"])
+        g.color1, g.color2 = tuple(rng.randint(0, 255) for _ in range(3)), tuple(rng.randint(0, 255) for _ in range(3))
+        g.aci1, g.aci2 = rng.choice([None, 1, 7]), rng.choice([None, 5, 256])
+        tags = collect_tags(lambda w: g.export_dxf(w))
+        g2 = Gradient.load_tags(Tags(tags))
+        # the file holds radians: the rotation that comes back is degrees(radians(r)) (one ulp off for some values, stable afterwards)
+        want = (g.kind, fbits(math.degrees(math.radians(g.rotation))), g.centered, g.tint, g.one_color, g.name, tuple(g.color1), tuple(g.color2), g.aci1, g.aci2)
+        got = (g2.kind, fbits(g2.rotation), g2.centered, g2.tint, g2.one_color, g2.name, tuple(g2.color1), tuple(g2.color2), g2.aci1, g2.aci2)
+        if want != got:
+            return "HATCH gradient", f"{want} -> {got}"
+        g3 = Gradient.load_tags(Tags(collect_tags(lambda w: g2.export_dxf(w))))
+        if fbits(g3.rotation) != fbits(g2.rotation):
+            return "HATCH gradient rotation, second cycle", f"{g2.rotation!r} -> {g3.rotation!r}"
+    elif kind == "SEEDS":
+        h = Hatch()
+        h.seeds = [(f(), f()) for _ in range(rng.randint(0, 5))]
+        tags = [DXFTag(75, 1), DXFTag(47, 0.25)] + collect_tags(lambda w: h.export_seeds(w))
+        h2 = Hatch()
+        rest = h2.load_seeds(Tags(tags))
+        if [_p2(x) for x in h2.seeds] != [_p2(x) for x in h.seeds] or [tg.code for tg in rest] != [75, 47]:
+            return "HATCH seed points", f"{h.seeds} -> {h2.seeds}, rest {[tg.code for tg in rest]}"
+    elif kind == "PATTERN":
+        pat = Pattern([PatternLine(f(), (f(), f()), (f(), f()), [f() for _ in range(rng.randint(0, 5))]) for _ in range(rng.randint(1, 4))])
+        tags = [DXFTag(76, 1), DXFTag(52, 0.0)] + collect_tags(lambda w: pat.export_dxf(w)) + [DXFTag(47, 1.0), DXFTag(98, 0)]
+        h = Hatch()
+        rest = h.load_pattern(Tags(tags))
+        shw = lambda pp: [(_fb(l.angle), _p2(l.base_point), _p2(l.offset), [_fb(x) for x in l.dash_length_items]) for l in pp.lines]
+        if h.pattern is None or shw(h.pattern) != shw(pat) or [tg.code for tg in rest] != [76, 52, 47, 98]:
+            return "HATCH pattern lines", f"{shw(pat)} -> {None if h.pattern is None else shw(h.pattern)}, rest {[tg.code for tg in rest]}"
+    return None
+
+
+O5_KINDS = ["SPLINE", "MESH", "MTEXT", "DICTIONARY", "HATCH", "HATCH", "MPOLYGON", "SEEDS", "PATTERN", "GRADIENT"]
+
+
+def o5_payload(ctx):
+    stream = "O5 payload codecs on the real code"
+    rng = ctx.rng("o5")
+    for i in range(ctx.n(900, 9000)):
+        kind = O5_KINDS[i % len(O5_KINDS)]
+        seed = rng.randrange(1 << 30)
+        ctx.count(stream, (kind, seed), True)
+        ctx.hist(stream, kind)
+        try:
+            r = o5_one(ctx, kind, seed)
+        except Exception as ex:  # an exception escaping from writer or loader of a valid payload
+            r = (f"{kind}: {type(ex).__name__}", str(ex)[:200])
+        if r is not None:
+            ctx.fail(f"payload-codec/{kind}/{r[0]}", f"real export -> real load of a random {kind} payload (seed {seed}): {r[0]}: {r[1]}",
+                     {"op": "o5", "kind": kind, "seed": seed})
+
+
 def oracle(ctx):
     classes = classes_by_type()
     o1_zoo(ctx, classes)
     o2_documents(ctx, classes)
     o3_cext(ctx)
     o4_probes(ctx)
+    o5_payload(ctx)
 
 
 def replay(ctx, rep):
@@ -2464,6 +3593,12 @@ def replay(ctx, rep):
                     continue
                 run.apply(op)
             roundtrip_check(ctx, "replay", run.doc, r["version"], r["fmt"], r, classes)
+        elif r.get("op") == "x6":
+            x6_cases(ctx)  # deterministic per seed: reports the same key again when the typed entity still changes
+        elif r.get("op") == "o5":
+            res = o5_one(ctx, r["kind"], r["seed"])
+            if res is not None:
+                ctx.fail(f["key"], f"still fails: {res[0]}: {res[1]}", r)
         elif r.get("op") == "multitags":
             from ezdxf.lldxf.tags import text_to_multi_tags, multi_tags_to_text
             if multi_tags_to_text(text_to_multi_tags(r["text"])) != r["text"]:
